@@ -86,6 +86,12 @@ def report(ctx, mismatches, devrel, relevant):
         if not relevant(dev, mm):
             continue
         a = mm.get("a", {})
+        if mm.get("step", 0) < 0:
+            ctx.finding("Session:counter-range",
+                        "a SessionKey cannot hold counters near 2^64 (state after setting the counters: real %s, "
+                        "spec %s): nonces repeat / the window breaks long before 2^64 messages" % (
+                            vf.canon(mm.get("real")), vf.canon(mm.get("spec"))), mm)
+            continue
         key = "Session:%s" % (dev or ("unexplained:%s:%s" % (a.get("act"), mm.get("real_res"))))
         what = "SessionKey %s(%s dir=%s ctr=%s %s) in state %s: spec %s -> %s, real %s -> %s (%s)" % (
             a.get("act"), a.get("e"), a.get("dir"), a.get("ctr"), a.get("kind", ""), vf.canon(mm.get("s")),
@@ -94,7 +100,7 @@ def report(ctx, mismatches, devrel, relevant):
         ctx.finding(key, what, mm)
 
 
-def traces(ctx, test, env, name, cfg="TraceSession.cfg"):
+def traces(ctx, test, env, name, cfg="TraceSession.cfg", dfs=False):
     out = os.path.join(ctx.work, name + ".ndjson")
     e = dict(env)
     e["ZZV_OUT"] = out
@@ -110,7 +116,7 @@ def traces(ctx, test, env, name, cfg="TraceSession.cfg"):
     if not summ:
         raise vf.Infra("trace harness produced no summary")
     res = ctx.tlc("TraceSession", cfg, workers=1, env={"TRACE_FILE": out}, expect_violation=True,
-                  tags=("HW", "LEN"), name=name)
+                  tags=("HW", "LEN"), name=name, queue_dfs=dfs, dump_trace=False)
     hw = [o for t, o in res.prints if t == "HW"]
     ln = [o for t, o in res.prints if t == "LEN"]
     if not hw or not ln:
